@@ -3,19 +3,30 @@ package composite
 // Scenario generator, scripted hook and trace writer for composite syncs.
 
 import (
+	"context"
 	"encoding/json"
 	"fmt"
 	"os"
 	"sort"
 	"testing"
 
+	"k8s.io/apimachinery/pkg/apis/meta/v1/unstructured"
+	"k8s.io/apimachinery/pkg/runtime"
 	utilruntime "k8s.io/apimachinery/pkg/util/runtime"
+
+	"metacontroller/pkg/apis/metacontroller/v1alpha1"
 
 	vs "metacontroller/pkg/internal/verifsim"
 )
 
+var lastSyncError string
+
 func init() {
-	utilruntime.ErrorHandlers = nil
+	utilruntime.ErrorHandlers = []utilruntime.ErrorHandler{func(_ context.Context, err error, msg string, _ ...interface{}) {
+		if err != nil {
+			lastSyncError = err.Error()
+		}
+	}}
 }
 
 var methods = []string{"", "OnDelete", "Recreate", "InPlace", "RollingRecreate", "RollingInPlace", "Bogus"}
@@ -421,6 +432,57 @@ func buildScenario(r *vs.Rand, cfg scfg) *scenario {
 			w.sim.Put(c.group(), c.Resource, o)
 		}
 	}
+	// rolling strategies: sometimes a rollout is already in progress
+	anyRolling := false
+	kindOf := map[string]childSpec{}
+	for _, c := range cfg.Children {
+		kindOf[c.Resource] = c
+		if c.Method == "RollingInPlace" || c.Method == "RollingRecreate" {
+			anyRolling = true
+		}
+	}
+	if anyRolling && r.Chance(75) {
+		rel := func(c childSpec, name string) string {
+			if ns == "" && c.Namespaced {
+				return "ns1/" + name
+			}
+			return name
+		}
+		oldClaims, newClaims := map[string][]string{}, map[string][]string{}
+		for _, c := range cfg.Children {
+			if c.Method != "RollingInPlace" && c.Method != "RollingRecreate" {
+				if r.Chance(20) {
+					oldClaims[c.Resource] = []string{rel(c, "p1-0")} // claim of a kind that does not roll any more
+				}
+				continue
+			}
+			for i := 0; i < int(objInt(spec, "replicas"))+1; i++ {
+				n := rel(c, fmt.Sprintf("p1-%d", i))
+				switch r.Intn(5) {
+				case 0, 1:
+					oldClaims[c.Resource] = append(oldClaims[c.Resource], n)
+				case 2:
+					newClaims[c.Resource] = append(newClaims[c.Resource], n)
+				case 3: // duplicate claim (as a crash between two revision updates leaves it)
+					oldClaims[c.Resource] = append(oldClaims[c.Resource], n)
+					newClaims[c.Resource] = append(newClaims[c.Resource], n)
+				}
+			}
+		}
+		oldParent := vs.DeepCopy(stored).(map[string]interface{})
+		oldParent["spec"].(map[string]interface{})["image"] = "v0"
+		if len(oldClaims) > 0 || r.Chance(30) {
+			sc.putRevision(oldParent, oldClaims, kindOf)
+		}
+		if r.Chance(60) {
+			sc.putRevision(stored, newClaims, kindOf)
+		}
+		if r.Chance(15) {
+			older := vs.DeepCopy(stored).(map[string]interface{})
+			older["spec"].(map[string]interface{})["image"] = "v00"
+			sc.putRevision(older, map[string][]string{cfg.Children[0].Resource: {rel(cfg.Children[0], "p1-0")}}, kindOf)
+		}
+	}
 	w.fillCaches()
 	return sc
 }
@@ -430,10 +492,74 @@ func (sc *scenario) traceLine(i int, seed uint64, storeBefore []map[string]inter
 	w := sc.w
 	calls := w.sim.LogCopy()
 	cacheAfter := w.cacheDump()
-	return vs.M{"kind": "sync", "ctl": "composite", "case": i, "seed": seed, "cfg": sc.Cfg, "key": sc.key,
+	return vs.M{"kind": "sync", "ctl": "composite", "case": i, "seed": seed, "cfg": sc.Cfg, "key": sc.key, "revName": sc.revName(),
 		"cache": cacheBefore, "storeBefore": storeBefore, "calls": calls, "storeAfter": w.sim.Snapshot(),
 		"result": vs.M{"outcome": outcome, "detail": detail, "queue": w.q.Ops},
 		"cacheIntact": vs.MustJSON(cacheBefore) == vs.MustJSON(cacheAfter)}
+}
+
+// revName: the name newControllerRevision would give a revision of the cached parent's current patch
+// (a SHA-1; supplied to the model as an oracle value).
+func (sc *scenario) revName() string {
+	w := sc.w
+	var parent *unstructured.Unstructured
+	for _, it := range w.parentIdx.List() {
+		u := it.(*unstructured.Unstructured)
+		if u.GetName() == "p1" {
+			parent = u
+		}
+	}
+	if parent == nil {
+		return ""
+	}
+	fps := sc.Cfg.FieldPaths
+	if len(fps) == 0 {
+		fps = []string{"spec"}
+	}
+	patch, err := makePatch(parent.UnstructuredContent(), fps)
+	if err != nil {
+		return ""
+	}
+	data, err := json.Marshal(patch)
+	if err != nil {
+		return ""
+	}
+	return controllerRevisionName(&w.pc.parentResource.APIResource, parent, data)
+}
+
+// putRevision stores a ControllerRevision for parent whose revisioned fields are as in `specOf`.
+func (sc *scenario) putRevision(parent map[string]interface{}, claims map[string][]string, kindOf map[string]childSpec) {
+	w := sc.w
+	pu := &unstructured.Unstructured{Object: parent}
+	fps := sc.Cfg.FieldPaths
+	if len(fps) == 0 {
+		fps = []string{"spec"}
+	}
+	patch, err := makePatch(parent, fps)
+	if err != nil {
+		panic(err)
+	}
+	rev, err := w.pc.newControllerRevision(pu, patch)
+	if err != nil {
+		return
+	}
+	var res []string
+	for r := range claims {
+		res = append(res, r)
+	}
+	sort.Strings(res)
+	for _, r := range res {
+		c := kindOf[r]
+		rev.Children = append(rev.Children, v1alpha1.ControllerRevisionChildren{APIGroup: c.group(), Kind: c.Kind, Names: claims[r]})
+	}
+	m, err := runtime.DefaultUnstructuredConverter.ToUnstructured(rev)
+	if err != nil {
+		panic(err)
+	}
+	if md, ok := m["metadata"].(map[string]interface{}); ok {
+		delete(md, "creationTimestamp")
+	}
+	w.sim.Put(revGroup, "controllerrevisions", m)
 }
 
 func (sc *scenario) syncOnce(i int, seed uint64) vs.M {
